@@ -186,4 +186,18 @@ theorem same_cap_same_node (m : Maker) (d : Bool) (cap : String)
 
 example : (createFromCap (createFromCap {} false "URI:SSK:w" .mutable).1 false "URI:SSK:w" .mutable).2 = 0 := by decide
 
+/-- **the read-cap hint does not matter**: a node reached through a parent directory
+(`create_from_cap(rw_uri, ro_uri)`) and the node made from the cap string alone
+(`create_from_cap(cap)`) are the same object, whatever other calls happen in between. -/
+theorem same_cap_same_node_any_hint (m : Maker) (d : Bool) (w r1 r2 : String) (hw : w.isEmpty = false)
+    (others : List (Bool × String × Kind)) :
+    let first := createFromCaps m d w r1 .mutable
+    let m2 := others.foldl (fun acc c => (createFromCap acc c.1 c.2.1 c.2.2).1) first.1
+    (createFromCaps m2 d w r2 .mutable).2 = first.2 := by
+  have hb : ∀ r, bigcapOf w r = w := by intro r; simp [bigcapOf, hw]
+  simp only [createFromCaps, hb]
+  exact same_cap_same_node m d w others
+
+example : (createFromCaps (createFromCaps {} false "URI:SSK:w" "URI:SSK-RO:r" .mutable).1 false "URI:SSK:w" "" .mutable).2 = 0 := by decide
+
 end Tahoe.C13
